@@ -344,7 +344,41 @@ class ExprCanon(ast.NodeTransformer):
             node = self._with_bound(names, lambda: self.generic_visit(node))
         finally:
             self._cdepth -= 1
-        return self._alpha_comp(node, self._cdepth)
+        return self._alpha_comp(self._fuse_comp(node), self._cdepth)
+
+    @staticmethod
+    def _fuse_comp(node):
+        """`[g(y) for y in [E for x in X if c] ...]` -> `[g(E) for x in X if c ...]` when E is a call-free expression of x
+        (a lookup / attribute chain): the intermediate list only renames elements"""
+        import copy as _c
+        changed = True
+        while changed:
+            changed = False
+            for gi, g in enumerate(node.generators):
+                it = g.iter
+                if isinstance(it, (ast.ListComp, ast.GeneratorExp)) and len(it.generators) == 1 and isinstance(g.target, ast.Name) and not g.is_async \
+                        and not any(isinstance(n, (ast.Call, ast.Await, ast.Yield, ast.NamedExpr, ast.Lambda, ast.ListComp, ast.GeneratorExp, ast.SetComp, ast.DictComp)) for n in ast.walk(it.elt)):
+                    inner = it.generators[0]
+                    inner_names = {n.id for n in ast.walk(inner.target) if isinstance(n, ast.Name)}
+                    outer_names = {n.id for gg in node.generators for n in ast.walk(gg.target) if isinstance(n, ast.Name)}
+                    if inner_names & outer_names:
+                        continue
+                    y, E = g.target.id, it.elt
+
+                    class S(ast.NodeTransformer):
+                        def visit_Name(self, n):
+                            return _c.deepcopy(E) if n.id == y and isinstance(n.ctx, ast.Load) else n
+                    new_gen = ast.comprehension(target=inner.target, iter=inner.iter, ifs=list(inner.ifs) + [S().visit(c_) for c_ in g.ifs], is_async=0)
+                    rest = []
+                    for gg in node.generators[gi + 1:]:
+                        rest.append(ast.comprehension(target=gg.target, iter=S().visit(gg.iter), ifs=[S().visit(c_) for c_ in gg.ifs], is_async=gg.is_async))
+                    node.generators = node.generators[:gi] + [new_gen] + rest
+                    for fld in ("elt", "key", "value"):
+                        if hasattr(node, fld):
+                            setattr(node, fld, S().visit(getattr(node, fld)))
+                    changed = True
+                    break
+        return node
 
     @staticmethod
     def _alpha_comp(node, depth):
